@@ -349,6 +349,8 @@ class Engine:
                 if nm == 'UNDEFINED_VALUE':
                     return V.Undef
                 expr = self.T.module_consts[mp][nm]
+                if isinstance(expr, ast.Call) and isinstance(expr.func, ast.Name) and expr.func.id == 'object' and not expr.args:
+                    return V.Other(-(10 + strid(f"sentinel:{mp}:{nm}")))      # a module-level sentinel object: unique opaque value
                 try:
                     val = ast.literal_eval(expr)
                 except Exception:
